@@ -1,0 +1,65 @@
+//go:build verif
+
+// Contracts for package file (version-record repository), read by /verif/govc.
+package file
+
+import "github.com/glebziz/fs_db/internal/model"
+
+//@ func fileLen
+//@   ensures len: result == 40 + len(f.Key)
+
+// The release layout is the postcondition: 8-byte little-endian sequence,
+// 16-byte transaction id, 16-byte content id, raw key.
+//@ func marshalFile
+//@   ensures ok:       result == nil <==> (len(data) == 40 + len(f.Key) && uuidValid(f.TxId) && uuidValid(f.ContentId))
+//@   ensures errclass: result != nil ==> result == model.ErrInvalidFileFormat
+//@   ensures seq0:     result == nil ==> data[0] == f.Seq % 256
+//@   ensures seq1:     result == nil ==> data[1] == (f.Seq / 256) % 256
+//@   ensures seq2:     result == nil ==> data[2] == ((f.Seq / 256) / 256) % 256
+//@   ensures seq3:     result == nil ==> data[3] == (((f.Seq / 256) / 256) / 256) % 256
+//@   ensures seq4:     result == nil ==> data[4] == ((((f.Seq / 256) / 256) / 256) / 256) % 256
+//@   ensures seq5:     result == nil ==> data[5] == (((((f.Seq / 256) / 256) / 256) / 256) / 256) % 256
+//@   ensures seq6:     result == nil ==> data[6] == ((((((f.Seq / 256) / 256) / 256) / 256) / 256) / 256) % 256
+//@   ensures seq7:     result == nil ==> data[7] == (((((((f.Seq / 256) / 256) / 256) / 256) / 256) / 256) / 256) % 256
+//@   ensures txid:     result == nil ==> forall i int :: 0 <= i && i < 16 ==> data[8+i] == uuidByte(f.TxId, i)
+//@   ensures content:  result == nil ==> forall i int :: 0 <= i && i < 16 ==> data[24+i] == uuidByte(f.ContentId, i)
+//@   ensures key:      result == nil ==> forall i int :: 0 <= i && i < len(f.Key) ==> data[40+i] == f.Key[i]
+//@   ensures frame:    memframe(data)
+//@   ensures onerror:  result != nil ==> forall i int :: 0 <= i && i < len(data) ==> data[i] == old(data[i])
+//@   modifies mem[uint8]
+
+//@ func unmarshalFile
+//@   requires zeroed:  f != nil ==> f.Key == ""
+//@   ensures err:      result != nil <==> (f == nil || len(data) < 40)
+//@   ensures errclass: result != nil ==> result == model.ErrInvalidFileFormat
+//@   ensures seq:      result == nil ==> f.Seq == data[0] + 256*data[1] + 65536*data[2] + 16777216*data[3] + 4294967296*data[4] +
+//@                        1099511627776*data[5] + 281474976710656*data[6] + 72057594037927936*data[7]
+//@   ensures txid:     result == nil ==> f.TxId == uuidStr16(data[8], data[9], data[10], data[11], data[12], data[13], data[14], data[15],
+//@                        data[16], data[17], data[18], data[19], data[20], data[21], data[22], data[23])
+//@   ensures content:  result == nil ==> f.ContentId == uuidStr16(data[24], data[25], data[26], data[27], data[28], data[29], data[30], data[31],
+//@                        data[32], data[33], data[34], data[35], data[36], data[37], data[38], data[39])
+//@   ensures keylen:   result == nil ==> len(f.Key) == len(data) - 40
+//@   ensures key:      result == nil ==> forall i int :: 0 <= i && i < len(data) - 40 ==> f.Key[i] == data[40+i]
+//@   ensures bytes:    memsame(uint8)
+//@   ensures others:   forall g *model.File :: g != f ==> g.Key == old(g.Key) && g.TxId == old(g.TxId) && g.ContentId == old(g.ContentId) && g.Seq == old(g.Seq)
+//@   modifies model.File.*
+
+// Round trip (lemma over the two contracts above; calls use contracts only):
+// every record with canonical ids decodes to exactly what was encoded.
+//@ func lemmaRoundTrip
+//@   requires canonical: uuidCanonical(f.TxId) && uuidCanonical(f.ContentId)
+//@   requires size:      len(data) == 40 + len(f.Key)
+//@   ensures  sameseq:   result.Seq == f.Seq
+//@   ensures  sametx:    result.TxId == f.TxId
+//@   ensures  samecid:   result.ContentId == f.ContentId
+//@   ensures  samekey:   result.Key == f.Key
+func lemmaRoundTrip(f model.File, data []byte) model.File {
+	if marshalFile(f, data) != nil {
+		panic("encoding a record with canonical ids into a buffer of the right size cannot fail")
+	}
+	var out model.File
+	if unmarshalFile(data, &out) != nil {
+		panic("decoding what was just encoded cannot fail")
+	}
+	return out
+}
